@@ -47,6 +47,12 @@ LawScale ==
     /\ Undef("quo", Sc(x, k), Sc(y, k)) = Undef("quo", M(x), M(y))
     /\ ~Undef("quo", M(x), M(y)) =>          \* the result is only looked at when ok
           Hull(HullPairs("quo", Sc(x, k), Sc(y, k))) = Hull(HullPairs("quo", M(x), M(y)))
+    \* scaling the DIVIDEND only: exact when every divisor is +-1 or +-2 and the dividend's bounds are even
+    \* (the harness uses it to put the dividend at -2^63, 2^63, 2^64 ... against the divisors -1, 1, -2, 2)
+    /\ (x.lo % 2 = 0 /\ x.hi % 2 = 0 /\ y.lo >= -2 /\ y.hi <= 2) =>
+          /\ Undef("quo", Sc(x, k), M(y)) = Undef("quo", M(x), M(y))
+          /\ ~Undef("quo", M(x), M(y)) =>
+                Hull(HullPairs("quo", Sc(x, k), M(y))) = HScale(Hull(HullPairs("quo", M(x), M(y))), k)
     /\ Hull(HullPairs("lsh", Sc(x, k), M(y))) = HScale(Hull(HullPairs("lsh", M(x), M(y))), k)
     /\ (y.lo >= 0) =>
           /\ Hull(HullPairs("rsh", Sc(x, k), Tr(y, k))) = Hull(HullPairs("rsh", M(x), M(y)))
